@@ -554,8 +554,8 @@ func c16Range(c *core.Ctx, pkg *packages.Package) {
 				}
 			case *ast.IfStmt:
 				stopP := an.ParamName(fn.Decl.Type, 1)
-				if types.ExprString(x.Cond) == stopP+".IsZero()" && len(x.Body.List) == 1 {
-					if as, ok := x.Body.List[0].(*ast.AssignStmt); ok && len(as.Lhs) == 1 && types.ExprString(as.Lhs[0]) == stopP {
+				if types.ExprString(x.Cond) == stopP+".IsZero()" && len(an.Effective(x.Body.List)) == 1 {
+					if as, ok := an.Effective(x.Body.List)[0].(*ast.AssignStmt); ok && len(as.Lhs) == 1 && types.ExprString(as.Lhs[0]) == stopP {
 						// the value is the local that holds time.Now()
 						rhs := types.ExprString(as.Rhs[0])
 						ast.Inspect(fn.Decl.Body, func(m ast.Node) bool {
